@@ -1,6 +1,6 @@
 (* C06 - Estimands mention only distributions the analyst actually has. *)
 From Coq Require Import List Bool.
-From Y0 Require Import Base.ListSet Graph.MixedGraph Dsl.Syntax Dsl.Build Alg.Id Alg.Idc Alg.Cg Alg.IdStar Alg.Vocab Proofs.VocabP Proofs.AtomsP Proofs.StarVocabP.
+From Y0 Require Import Base.ListSet Graph.MixedGraph Dsl.Syntax Dsl.Build Alg.Id Alg.Idc Alg.Cg Alg.IdStar Alg.Trso Alg.Vocab Proofs.VocabP Proofs.AtomsP Proofs.StarVocabP Proofs.TrsoVocab2P.
 Import ListNotations.
 
 (* ID: for every well-formed graph, query, topological-order oracle: an estimand returned by the model consists of plain
@@ -17,6 +17,22 @@ Theorem C06_IDC_estimands_are_plain_observational_over_the_graph topo (g : mg na
   In (IdOk e) (idc false topo g X Y Z) -> is_err e = false -> plain_obs (nodes g) e = true.
 Proof. exact (idc_vocab false topo g (S (List.length Z)) X Y Z e). Qed.
 
+(* Transport (TRSO): every term of a returned estimand is a term of the target observational distribution, or of a DECLARED
+   source domain under a subset of THAT domain's declared experimental variables (as un-starred subscripts), over the user's
+   nodes only - never a selection (transport) node. [surr_of domains] is the declaration: population -> experimental variables.
+   Node names 100..109 are the harness' V0..V9, the selection node of V<k> is 50+k. For every oracle, every query. *)
+Theorem C06_TRSO_estimands_use_only_declared_distributions topo (g : mg nat) Y X domains e :
+  wf g -> (forall n, In n (nodes g) -> 100 <= n < 110) ->
+  identify_target_outcomes topo g Y X domains = ROk (Some e) -> is_err e = false ->
+  trso_vocab (nodes g) TARGET (surr_of domains) e = true.
+Proof. exact (identify_target_outcomes_vocab topo g Y X domains e). Qed.
+
+(* not vacuous: X -> W -> Y with X <-> Y, experiments on X in domain pi1: the estimand mixes target terms and pi1 terms under do(X) *)
+Example C06_TRSO_not_vacuous :
+  exists e, identify_target_outcomes topological_sort (MG [100; 101; 102] [(100, 101); (101, 102)] [(100, 102)]) [102] [100] [(201, [102], [100])] = ROk (Some e)
+            /\ is_err e = false /\ plain_obs [100; 101; 102] e = false.
+Proof. eexists. vm_compute. auto. Qed.
+
 (* ID-star and IDC-star: every probability term of a returned estimand is single-world - all its variables carry the same
    intervention subscripts - for every graph, event, topological order, fuel and every order of the unordered choices *)
 Theorem C06_IDstar_estimands_are_single_world (g : mg nat) topo fuel ev e :
@@ -31,6 +47,7 @@ Proof.
   exact (fun Hin Hne => swP_single e (PA_split_local e (idc_star_single_world g topo fuel outcomes conditions (IdOk e) Hin e eq_refl) Hne)).
 Qed.
 
+Print Assumptions C06_TRSO_estimands_use_only_declared_distributions.
 Print Assumptions C06_IDstar_estimands_are_single_world.
 Print Assumptions C06_IDCstar_estimands_are_single_world.
 Print Assumptions C06_ID_estimands_are_plain_observational_over_the_graph.
